@@ -149,6 +149,18 @@ pub fn gen_c05(out: &mut impl Write, seed: u64, thorough: bool) {
                 writeln!(out, "seal.open {} {} {} want=ok:{}", be.name(), hex(&psk), hex(s.as_bytes()), hex(&key)).unwrap();
             }
         }
+        if be == Be::V1 {
+            // recipients whose RSA public exponent is not 65537 (honestly generated keys with e = 3 / e = 17)
+            for (_, spem, ppem) in crate::rsa4k_pool::PAIRS {
+                for _ in 0..(if thorough { 40 } else { 6 }) {
+                    let key = r.bytes(32);
+                    writeln!(out, "o.seal.rt v1 {} {} {}", hex(spem.as_bytes()), hex(ppem.as_bytes()), hex(&key)).unwrap();
+                    if let Some(s) = seal(be, ppem.as_bytes(), &key) {
+                        writeln!(out, "seal.open v1 {} {} want=ok:{}", hex(spem.as_bytes()), hex(s.as_bytes()), hex(&key)).unwrap();
+                    }
+                }
+            }
+        }
     }
 }
 
@@ -221,6 +233,25 @@ pub fn gen_c06(out: &mut impl Write, seed: u64, thorough: bool) {
                         writeln!(out, "{op} {} {} {} {} want=err", be.name(), k.name(), hex(&secret), hex(format!("{hdr}{}", b64(&m)).as_bytes())).unwrap();
                     }
                 }
+                // two-bit corruptions: the same bit in two bytes of one field, and one bit in each of two fields (a comparison that
+                // folds differences with XOR, or compares a checksum of the tag, accepts exactly these)
+                {
+                    let fe: Vec<usize> = { let mut v: Vec<usize> = field_edges(op, be, n).into_iter().collect(); v.sort(); v };
+                    let mut pairs: Vec<(usize, usize, u8, u8)> = vec![];
+                    for w in fe.windows(2) { pairs.push((w[0], w[1], 0, 0)); pairs.push((w[0], w[1], 7, 7)); }
+                    for _ in 0..24 {
+                        let a = r.below(n as u64) as usize; let b = r.below(n as u64) as usize;
+                        if a != b { let bit = r.below(8) as u8; pairs.push((a, b, bit, bit)); }
+                    }
+                    for k in 0..n.saturating_sub(1) { if k % 7 == 0 { pairs.push((k, k + 1, 0, 0)); } }
+                    for (a, b, ba, bb) in pairs {
+                        let mut m = blob.clone();
+                        m[a] ^= 1 << ba;
+                        m[b] ^= 1 << bb;
+                        if m == blob || !within(&m) { continue; }
+                        writeln!(out, "{op} {} {} {} {} want=err", be.name(), k.name(), hex(&secret), hex(format!("{hdr}{}", b64(&m)).as_bytes())).unwrap();
+                    }
+                }
                 for cut in [1usize, 2, 16, 31, 32, 33, 48] {
                     if cut < n {
                         writeln!(out, "{op} {} {} {} {} want=err", be.name(), k.name(), hex(&secret), hex(format!("{hdr}{}", b64(&blob[..n - cut])).as_bytes())).unwrap();
@@ -274,6 +305,23 @@ pub fn gen_c06(out: &mut impl Write, seed: u64, thorough: bool) {
                     if (byte * 8 + bit) % stride != 0 && !fe.contains(&byte) { continue; }
                     let mut m = blob.clone();
                     m[byte] ^= 1 << bit;
+                    writeln!(out, "seal.open {} {} {} want=err", be.name(), hex(&psk), hex(format!("{hdr}{}", b64(&m)).as_bytes())).unwrap();
+                }
+            }
+            {
+                // two-bit corruptions (see above)
+                let fe: Vec<usize> = { let mut v: Vec<usize> = field_edges("seal.open", be, n).into_iter().collect(); v.sort(); v };
+                let mut pairs: Vec<(usize, usize, u8)> = vec![];
+                for w in fe.windows(2) { pairs.push((w[0], w[1], 0)); pairs.push((w[0], w[1], 7)); }
+                for _ in 0..16 {
+                    let a = r.below(n as u64) as usize; let b = r.below(n as u64) as usize;
+                    if a != b { pairs.push((a, b, r.below(8) as u8)); }
+                }
+                for k in 0..n.saturating_sub(1) { if k % (if be == Be::V1 { 97 } else { 7 }) == 0 { pairs.push((k, k + 1, 0)); } }
+                for (a, b, bit) in pairs {
+                    let mut m = blob.clone();
+                    m[a] ^= 1 << bit;
+                    m[b] ^= 1 << bit;
                     writeln!(out, "seal.open {} {} {} want=err", be.name(), hex(&psk), hex(format!("{hdr}{}", b64(&m)).as_bytes())).unwrap();
                 }
             }
@@ -407,6 +455,30 @@ pub fn gen_c07(out: &mut impl Write, seed: u64, thorough: bool) {
         // value classes of the encapsulation: library seals are repeated until every value of the last byte of an X25519
         // ephemeral key (0..=0x7f), both P-384 point tags and extreme leading coordinate / tag / ciphertext bytes have occurred;
         // every back end of the version (and the model) must open each of them
+        if be == Be::V1 {
+            // v1: the 512-byte RSA-KEM ciphertext c (blob bytes 80..592): seal until c starts with a zero byte (1 in 256) and with 0xff;
+            // also recipients with public exponent 3 / 17, model-built and library-built
+            let key = r.bytes(32);
+            let mut seen = std::collections::HashSet::new();
+            for _ in 0..(if thorough { 6000 } else { 1500 }) {
+                let Some(s) = seal(be, &ppk, &key) else { continue };
+                let blob = crate::gen_tok::unb64(s.rsplit('.').next().unwrap());
+                if blob.len() != 592 { continue; }
+                let c0 = blob[80];
+                let class = if c0 == 0 { 0 } else if c0 == 0xff { 1 } else if c0 < 0x10 { 2 } else { continue };
+                if seen.insert(class) {
+                    writeln!(out, "seal.open v1 {} {} want=ok:{}", hex(&psk), hex(s.as_bytes()), hex(&key)).unwrap();
+                }
+                if seen.len() == 3 { break; }
+            }
+            for (_, spem, ppem) in crate::rsa4k_pool::PAIRS {
+                let key = r.bytes(32);
+                writeln!(out, "m.seal v1 {} {} {} | seal.open v1 {} $ want=ok:{}", hex(ppem.as_bytes()), hex(&key), hex(&r.bytes(512)), hex(spem.as_bytes()), hex(&key)).unwrap();
+                if let Some(s) = seal(be, ppem.as_bytes(), &key) {
+                    writeln!(out, "seal.open v1 {} {} want=ok:{}", hex(spem.as_bytes()), hex(s.as_bytes()), hex(&key)).unwrap();
+                }
+            }
+        }
         if be != Be::V1 && (be == Be::V2 || be == Be::V3 || be == Be::V4) {
             let key = r.bytes(32);
             let budget = if thorough { 40_000 } else { 6_000 };
